@@ -68,7 +68,7 @@ func DevMutants(name string) string {
 				src[k] = v
 			}
 			src[m.Module] = m.Source
-			out, pv := analyze(src, !b.NoMain)
+			out, pv := analyze(src, !b.NoMain, "")
 			_, text := firstError(out)
 			// changed lines
 			ol := strings.Split(parsed.Plain[m.Module], "\n")
@@ -135,7 +135,7 @@ func DevGen(tier string, seed uint64, id string) string {
 		for k, v := range parsed.Plain {
 			src[k] = v
 		}
-		out, pv := analyze(src, p.Main)
+		out, pv := analyze(src, p.Main, p.Host)
 		fmt.Fprintf(&sb, "errors=%d panic=%v\n%s\n", out.Errors, pv, strings.ReplaceAll(out.ErrorSummary(), "; ", "\n"))
 	}
 	return sb.String()
@@ -155,7 +155,7 @@ func DevCorpus() string {
 		for k, v := range corpusSources(corpus, n) {
 			src[k] = v
 		}
-		out, pv := analyze(src, true)
+		out, pv := analyze(src, true, "")
 		_, first := firstError(out)
 		fmt.Fprintf(&sb, "%-50s errors=%d panic=%v %s\n", n, out.Errors, pv, first)
 	}
